@@ -361,6 +361,32 @@ func ruleDeadlineDirection(c *Ctx, r *R) {
 			}
 		}
 		r.ok(dir && hasDeadline, key+"|direction", al.Pos(), "DeadlineTooSoonError must be returned exactly when a deadline exists and remaining < d (the direction is fixed by what the error means)")
+		// ... exactly then: no further condition in front of it (`ok && d >= shortSleep` lets a short sleep with a deadline that
+		// is already too close wait for the deadline - or sleep the whole d - instead of failing at once)
+		extra := ""
+		if al.Parent() == fn && dir && hasDeadline {
+			for _, g := range guardsOf(b) {
+				if cf, ok := g.asCmp(); ok {
+					if cf.via != nil {
+						continue
+					}
+					if (cf.x == R && cf.y == D) || (cf.x == D && cf.y == R) {
+						continue
+					}
+					if cf.x == ssa.Value(dP) && isConstInt(cf.y, 0) {
+						continue // past the d <= 0 shortcut
+					}
+					if _, isExtr := cf.x.(*ssa.Extract); isExtr && isNilConst(cf.y) {
+						continue
+					}
+					if isParamOf(cf.x, chain, dP) || isParamOf(cf.y, chain, dP) {
+						extra = "a further test of d (" + path(cf.x) + " " + cf.op.String() + " " + path(cf.y) + ")"
+					}
+					continue
+				}
+			}
+		}
+		r.ok(extra == "", key+"|no-extra-condition", al.Pos(), "the deadline test is skipped under "+extra+": for such a d a deadline that is already closer than d is not reported at once - the call waits for the deadline (or sleeps the whole d) instead")
 	}
 	if n == 0 {
 		r.violated("xtime.SleepContext|too-soon", fn.Pos(), "DeadlineTooSoonError is never returned")
